@@ -99,6 +99,7 @@ HOME = {
     ("src/darray/mod.rs", "select_in_word"): "src/utils/mod.rs",
     ("src/binwt/mod.rs", "PrefixCode"): "src/quadwt/huffqwt.rs",
     ("src/darray/mod.rs", "BitVector"): "src/bitvector/mod.rs",
+    ("src/darray/mod.rs", "BitVectorBitPositionsIter"): "src/bitvector/mod.rs",
     ("src/darray/mod.rs", "select_in_word"): "src/utils/mod.rs",
 }
 
@@ -373,6 +374,24 @@ TARGETS = list(GL.TARGETS) + [
     ("src/quadwt/huffqwt.rs", "HuffQWaveletTree", "iter", "g_hqwt512_iter", {"T": "@T", "Q": "HuffQWaveletTree", "RS": "RSQVector", "S": "RSSupportPlain", "B_SIZE": 512, "WITH_PREFETCH_SUPPORT": False}),
     ("src/binwt/mod.rs", "WaveletTree", "iter", "g_wt_iter", {"T": "@T", "Q": "WaveletTree", "BRS": "RSWide", "COMPRESSED": False}),
     ("src/binwt/mod.rs", "WaveletTree", "iter", "g_hwt_iter", {"T": "@T", "Q": "WaveletTree", "BRS": "RSWide", "COMPRESSED": True}),
+    ("src/quadwt/mod.rs", "QWaveletTree", "rank_prefetch_unchecked", "g_qwt256_rank_prefetch_unchecked", {"T": "@T", "RS": "RSQVector", "S": "RSSupportPlain", "B_SIZE": 256, "WITH_PREFETCH_SUPPORT": False}),
+    ("src/quadwt/mod.rs", "QWaveletTree", "rank_prefetch", "g_qwt256_rank_prefetch", {"T": "@T", "RS": "RSQVector", "S": "RSSupportPlain", "B_SIZE": 256, "WITH_PREFETCH_SUPPORT": False}),
+    ("src/quadwt/mod.rs", "QWaveletTree", "rank_prefetch_unchecked", "g_qwt512_rank_prefetch_unchecked", {"T": "@T", "RS": "RSQVector", "S": "RSSupportPlain", "B_SIZE": 512, "WITH_PREFETCH_SUPPORT": False}),
+    ("src/quadwt/mod.rs", "QWaveletTree", "rank_prefetch", "g_qwt512_rank_prefetch", {"T": "@T", "RS": "RSQVector", "S": "RSSupportPlain", "B_SIZE": 512, "WITH_PREFETCH_SUPPORT": False}),
+    # ---- group bvnew: the collecting constructors of the bit vectors
+    ("src/bitvector/mod.rs", "BitVectorMut", "Extend#0::extend", "g_bvm_extend_bools", {"T": "[bool]"}),
+    ("src/bitvector/mod.rs", "BitVectorMut", "Extend#1::extend", "g_bvm_extend_positions", {"T": "[usize]"}),
+    ("src/bitvector/mod.rs", "BitVectorMut", "FromIterator#0::from_iter", "g_bvm_from_bools", {"T": "[bool]"}),
+    ("src/bitvector/mod.rs", "BitVectorMut", "FromIterator#1::from_iter", "g_bvm_from_positions", {"T": "[usize]"}),
+    ("src/bitvector/mod.rs", "BitVector", "FromIterator#0::from_iter", "g_bv_from_bools", {"T": "[bool]"}),
+    # ---- group danew: construction of the DArray inventories
+    ("src/darray/mod.rs", "Inventories", "flush_block", "g_da_flush_block", {}),
+    ("src/darray/mod.rs", "Inventories", "new", "g_inv1_new", {"BIT": True}),
+    ("src/darray/mod.rs", "Inventories", "new", "g_inv0_new", {"BIT": False}),
+    ("src/darray/mod.rs", "DArray", "new", "g_da1_new", {"SELECT0_SUPPORT": False}),
+    ("src/darray/mod.rs", "DArray", "new", "g_da0_new", {"SELECT0_SUPPORT": True}),
+    ("src/darray/mod.rs", "DArray", "FromIterator#0::from_iter", "g_da1_from_bools", {"SELECT0_SUPPORT": False, "T": "[bool]"}),
+    ("src/darray/mod.rs", "DArray", "FromIterator#0::from_iter", "g_da0_from_bools", {"SELECT0_SUPPORT": True, "T": "[bool]"}),
     # ---- group wtnew: the plain binary WaveletTree::new
     ("src/binwt/mod.rs", "WaveletTree", "new", "g_wt_new", {"T": "@T", "BRS": "RSWide", "COMPRESSED": False}),
     ("src/binwt/mod.rs", "WaveletTree", "FromIterator::from_iter", "g_wt_from_iter", {"T": "@T", "I": "[@T]", "BRS": "RSWide", "COMPRESSED": False}),
@@ -407,6 +426,8 @@ GROUPS = {
     "iters": ("src/bitvector/mod.rs", ("BitVectorBitPositionsIter", "BitVectorIter", "BitVectorIntoIter")),
     "craft": ("src/quadwt/huffqwt.rs", ("@craft",)),
     "titers": ("src/lib.rs", ("WTIterator", "QVectorIterator")),
+    "danew": ("src/darray/mod.rs", ("Inventories", "DArray@new")),
+    "bvnew": ("src/bitvector/mod.rs", ("@bvnew",)),
     "craft2": ("src/binwt/mod.rs", ("@craft",)),
 }
 # which generated files a group's file must import (T3 leaves and earlier T5 groups)
@@ -426,6 +447,8 @@ GROUP_IMPORTS = {
     "wtnew": ["LeavesUtils", "FnsUtils", "FnsBv", "FnsBvm", "FnsRsw2", "FnsWt"],
     "iters": ["LeavesUtils", "FnsBv"],
     "craft": ["LeavesUtils"],
+    "danew": ["LeavesUtils", "FnsBv", "FnsBvm", "FnsBvnew", "FnsIters"],
+    "bvnew": ["LeavesUtils", "FnsBv", "FnsBvm"],
     "titers": ["LeavesUtils", "FnsQv2", "FnsRsq", "FnsQwt", "FnsHqwt", "FnsBv", "FnsRsw2", "FnsWt"],
     "craft2": ["LeavesUtils"],
     "qwtnew": ["LeavesUtils", "FnsUtils", "FnsQv2", "FnsQvb", "FnsRss", "FnsRsq", "FnsQwt"],
@@ -435,7 +458,7 @@ GROUP_IMPORTS = {
 GL.RESERVED |= set("""while_loop for_loop iter_loop Next Brk Ret Done Retd len concat ounwrap wshl wshr fsqrt fuel Some
     None option step fin r s v zwrap ziadd zisub zimul zineg zshamt Z left right inl inr pair fst snd S O nil cons xH xO xI N0 Npos
     Z0 Zpos Zneg eq_refl conj I opt_ltb nthN wT for_loop_rev checked_add obsearch_fst iteri_loop ofold push_at resize_with last_opt set_last setN
-    last_ e_ omap max_opt clz copy_into tzcnt tz_pos omapf sort_by_fst sort_by_snd insert_by""".split())
+    last_ e_ omap max_opt clz copy_into tzcnt tz_pos omapf sort_by_fst sort_by_snd insert_by head""".split())
 
 
 # ------------------------------------------------------------------------------ item index with trait info
@@ -825,6 +848,12 @@ class Parser5(Parser):
                 else:
                     lo = self.expr_nostruct()
                     incl = False
+                    if self.at("{"):
+                        # for x in <expression>: an iterator value (a struct with a translated `next`), or a sequence
+                        body = self.loop_body()
+                        self.accept(";")
+                        stmts.append(("foriter", None, x, lo, body))
+                        continue
                     if self.accept("..="):
                         incl = True
                     else:
@@ -837,6 +866,15 @@ class Parser5(Parser):
                 stmts.append(("break",))
                 if not self.at("}"):
                     self.fail("statement after `break`")
+            elif self.at("const") and self.peek(1).kind == "id" and self.at(":", 2):
+                # a constant declared inside the function: an immutable local
+                self.i += 1
+                cname = self.ident()
+                self.expect(":")
+                cty = self.type()
+                self.expect("=")
+                stmts.append(("let", cname, cty, self.expr()))
+                self.expect(";")
             elif self.accept("let"):
                 self.accept("mut")
                 if self.accept("("):
@@ -856,7 +894,10 @@ class Parser5(Parser):
                     stmts.append(("letdecl", pat, ty))
                     continue
                 self.expect("=")
-                stmts.append(("let", pat, ty, self.expr()))
+                init = self.expr()
+                if self.accept(".."):
+                    init = ("range", init, self.expr())       # let r = a..b;
+                stmts.append(("let", pat, ty, init))
                 self.expect(";")
             elif self.accept("return"):
                 stmts.append(("return", None if self.at(";") or self.at("}") else self.expr()))
@@ -900,7 +941,10 @@ class Parser5(Parser):
                 if self.peek().kind == "op" and self.peek().text in GL.ASSIGN:
                     op = self.peek().text
                     self.i += 1
-                    stmts.append(("assign", e, op[:-1] or None, self.expr()))
+                    rhs = self.expr()
+                    if op == "=" and self.accept(".."):
+                        rhs = ("range", rhs, self.expr())      # r = a..b;
+                    stmts.append(("assign", e, op[:-1] or None, rhs))
                     if not self.at("}"):
                         self.expect(";")
                 elif self.at("}"):
@@ -1140,8 +1184,12 @@ class FnT5(FnTranslator):
             # a provided (default) method of a trait, instantiated for the struct `owner`: name@Trait@file
             fname, tr_name, tr_file = fname.split("@")
             text_unit, text_owner = world.unit(tr_file), "trait " + tr_name
+        self.trait_index = None
         if "::" in fname:
             trait, fname = fname.split("::")
+            if "#" in trait:
+                trait, k_ = trait.split("#")
+                self.trait_index = int(k_)
         self.fname = fname
         self.where = "%s: fn %s%s" % (unit.rel, (owner + "::") if owner else "", fname)
         self.sigs = world.sigs
@@ -1267,6 +1315,8 @@ class FnT5(FnTranslator):
         cands = unit.fns5.get((owner, fname), [])
         if trait:
             cands = [c for c in cands if c[1] == trait]
+            if getattr(self, "trait_index", None) is not None and len(cands) > self.trait_index:
+                cands = [sorted(cands)[self.trait_index]]      # several impls of one generic trait: by source order
         else:
             inh = [c for c in cands if c[1] is None]
             cands = inh if inh else cands
@@ -1621,7 +1671,7 @@ class FnT5(FnTranslator):
         """the signature registered for key whose monomorphisation is compatible with (contained in) ours"""
         best = None
         for sub, sig in self.world.monosigs.get(key, []):
-            if all(self.full_subst.get(k) == v for k, v in sub.items()):
+            if all(self.full_subst.get(k) == v for k, v in sub.items() if k != "Item"):
                 if best is None or len(sub) > len(best[0]):
                     best = (sub, sig)
         if best:
@@ -1810,6 +1860,9 @@ class FnT5(FnTranslator):
             return "u32"
         if k == "mcall" and e[2] in ("max", "min") and len(e[3]) == 1 and (self.ty(e[1], None, env) in INT or self.ty(e[3][0], None, env) in INT):
             return self.ty(e[1], None, env) if self.ty(e[1], None, env) in INT else self.ty(e[3][0], None, env)
+        if k == "mcall" and e[2] == "into" and not e[3] and isinstance(exp, tuple) and exp[0] == "record" \
+                and self.record_value_type_nested(e[1], env) is not None:
+            return exp
         if k == "mcall" and e[2] == "collect" and not e[3] and isinstance(exp, tuple) and exp[0] == "record" and self.collect_source(e, env) is not None:
             return exp
         if k == "mcall" and e[2] == "collect" and not e[3] and (exp is None or is_list(exp)) and self.collect_source(e, env) is not None:
@@ -1826,8 +1879,10 @@ class FnT5(FnTranslator):
             rt = self.ty(e[1], None, env)
             if m == "get" and is_list(rt) and len(e[3]) == 1:
                 return ("option", rt[1])
-            if m == "last" and is_list(rt) and not e[3]:
+            if m in ("last", "first") and is_list(rt) and not e[3]:
                 return ("option", rt[1])
+            if m == "len" and is_list(rt) and not e[3]:
+                return "usize"
             if m == "get_unchecked" and is_list(rt) and len(e[3]) == 1:
                 return rt[1]
             if m == "len" and is_list(rt) and not e[3]:
@@ -1984,7 +2039,7 @@ class FnT5(FnTranslator):
                     expr(s[1], env)
                     expr(s[3], env)
                 elif s[0] == "call" and s[1][0] == "call":
-                    expr(s[1][3], env)
+                    expr(s[1], env)
                 elif s[0] == "call":
                     if s[1][2] == "push" and s[1][1] == ("var", name) and len(s[1][3]) == 1:
                         t = tyq(s[1][3][0], env)
@@ -2177,6 +2232,12 @@ class FnT5(FnTranslator):
             self.fail("call `%s`" % "::".join(segs))
         sig = self.find_sig(key)
         if sig is None:
+            hint = self.CALL_HINTS.get((self.unit.rel, self.fname), {}).get(getattr(self, "cur_let", None))
+            if hint is not None:
+                for sub, sg in self.world.monosigs.get(key, []):
+                    if all(sub.get(k_) == v_ for k_, v_ in hint.items()):
+                        return sg
+        if sig is None:
             self.fail("call to `%s` (not a translated function)" % "::".join(segs))
         return sig
 
@@ -2248,6 +2309,10 @@ class FnT5(FnTranslator):
                     if not all(isinstance(tt, tuple) and tt[0] == "option" for _, tt in mine):
                         self.fail("`None` for the field `%s`" % fname)
                     vals += ["None"] * len(mine)
+                elif ent is not None and isinstance(ent[1], tuple) and ent[1][0] == "optrecord":
+                    if len(ent[1][3]) != len(mine) or not all(isinstance(tt, tuple) and tt[0] == "option" for _, tt in mine):
+                        self.fail("optional struct for the field `%s`" % fname)
+                    vals += ["(Some %s)" % x for x in ent[1][3]]
                 elif fe == ("self",) and self.selfkind and not self.is_mut:
                     want = [pp for pp, _ in self.model_leaves(("struct", self.owner), self.unit)]
                     if len(want) != len(mine) or any(pp not in self.path_coq for pp in want):
@@ -2489,6 +2554,10 @@ class FnT5(FnTranslator):
         if k == "mcall" and e[2] == "leading_zeros" and not e[3] and self.ty(e[1], None, env) == "@T":
             self.needs_w = True
             return app("clz", "wT", self.val(e[1], None, cx)), True
+        if k == "mcall" and e[2] == "into" and not e[3] and isinstance(exp, tuple) and exp[0] == "record" \
+                and self.record_value_type_nested(e[1], env) is not None:
+            # x.into() where the target type T is known: T::from(x)
+            return self.emit_call5(self.method_sig(exp[1], exp[2], "from"), None, [e[1]], cx)
         if k == "mcall" and e[2] == "collect" and not e[3] and (exp is None or is_list(exp)) and self.collect_source(e, env) is not None:
             return self.emit(self.collect_source(e, env), exp, cx)
         if k == "mcall" and e[2] == "collect" and not e[3] and isinstance(exp, tuple) and exp[0] == "record" and self.collect_source(e, env) is not None:
@@ -2513,6 +2582,8 @@ class FnT5(FnTranslator):
                 return app("nthN", a, self.val(e[3][0], "usize", cx)), True
             if m == "last" and is_list(rt) and not e[3]:
                 return app("last_opt", self.val(e[1], None, cx)), True
+            if m == "first" and is_list(rt) and not e[3]:
+                return app("head", self.val(e[1], None, cx)), True
             if m == "get_unchecked" and is_list(rt):
                 a = self.val(e[1], None, cx)
                 self.need(e[3][0], "usize", env, "usize")
@@ -2854,6 +2925,11 @@ class FnT5(FnTranslator):
                             n = "%s.%s" % (tg[1], ".".join(pp))
                             if n in env and n not in out:
                                 out.append(n)
+                    elif tg[0] == "var" and tg[1] in env and tg[1] not in declared and isinstance(env[tg[1]][1], tuple) and env[tg[1]][1][0] == "recparam":
+                        for f_ in env[tg[1]][1][3]:
+                            n = "%s.%s" % (tg[1], f_)
+                            if n in env and n not in out:
+                                out.append(n)
                     elif tg[0] == "var":
                         n = tg[1]
                         if n not in declared and n in env and n not in out:
@@ -2903,7 +2979,7 @@ class FnT5(FnTranslator):
                                 out.append(n)
                     if tgt[0] == "index" and tgt[1][0] == "var" and (m == "push" or tgt[1][1] in self.elem_nominal):
                         tgt = tgt[1]
-                    if tgt[0] == "var" and (m in ("push", "resize_with", "sort_by_key") or tgt[1] in self.elem_nominal):
+                    if tgt[0] == "var" and (m in ("push", "resize_with", "sort_by_key", "extend", "clear") or tgt[1] in self.elem_nominal):
                         n = tgt[1]
                         if n not in declared and n in env and n not in out and not (isinstance(env[n][1], tuple) and env[n][1][0] in ("soalocal", "recparam")):
                             out.append(n)
@@ -2993,6 +3069,7 @@ class FnT5(FnTranslator):
         for n, s in enumerate(stmts):
             rest = stmts[n + 1:]
             k = s[0]
+            self.cur_let = s[1] if k == "let" and isinstance(s[1], str) else None
             if k == "letdecl":
                 cx.env[s[1]] = (None, s[2], cx.depth)
             elif k == "trystmt":
@@ -3040,6 +3117,29 @@ class FnT5(FnTranslator):
                     lists[pp] = (cn, ("slice", tt))
                     L.append("let %s := [] in" % cn)
                 cx.env[s[1]] = (None, ("soalocal", st[1], st[2], lists), cx.depth)
+            elif k == "let" and isinstance(s[1], str) and s[3] is not None and s[3][0] == "call" and s[3][1] == ["Some"] and len(s[3][3]) == 1 \
+                    and self.record_value_type_nested(s[3][3][0], cx.env) is not None:
+                # let x = Some(S { .. } / S::f(..)): an optional several-field struct: its fields, all present
+                t = self.record_value_type_nested(s[3][3][0], cx.env)
+                v, pure = self.emit(s[3][3][0], t, cx)
+                leaves = self.model_leaves(("struct", t[1]), self.world.unit(t[2]))
+                tmp = ["%s_%s" % (s[1], "_".join(pp)) for pp, _ in leaves]
+                L.append(("let '(%s) := %s in" if pure else "let! (%s) := %s in") % (", ".join(tmp), v))
+                cx.env[s[1]] = (None, ("optrecord", t[1], t[2], tmp), cx.depth)
+            elif k == "let" and isinstance(s[1], str) and s[3] is not None and s[3][0] == "range":
+                # let r = a..b: a Range value, its two ends as two variables (r.start, r.end)
+                t = self.ty(s[3][1], None, cx.env) or self.ty(s[3][2], None, cx.env) or "usize"
+                self.need(s[3][1], t, cx.env, t), self.need(s[3][2], t, cx.env, t)
+                av, bv = self.val(s[3][1], t, cx), self.val(s[3][2], t, cx)
+                lists = {}
+                for fnm, v in (("start", av), ("end", bv)):
+                    cn = "%s_%s" % (s[1], fnm)
+                    while cn in GL.RESERVED or cn in self.sigs_coq or cn in self.field_coq.values():
+                        cn += "_"
+                    cx.env["%s.%s" % (s[1], fnm)] = (cn, t, cx.depth)
+                    lists[fnm] = (cn, t, t, self.unit.rel)
+                    L.append("let %s := %s in" % (cn, v))
+                cx.env[s[1]] = (None, ("recparam", "Range", self.unit.rel, lists), cx.depth)
             elif k == "let" and isinstance(s[1], str) and s[3] is not None and s[3][0] == "arrayrep" and self.record_value_type_nested(s[3][1], cx.env) is not None:
                 # vec![S { .. }; n] of several-field structs: one list per field, each n copies of the field's value
                 st = self.record_value_type_nested(s[3][1], cx.env)
@@ -3147,6 +3247,14 @@ class FnT5(FnTranslator):
                     ["| None =>"] + ["    " + l for a in arm2 for l in a.split("\n")] + ["end"]
             elif k == "expr" and s[1][0] == "if":
                 _, c, th, el = s[1]
+
+                def unit_tail(b):
+                    # a unit-valued method call without `;` at the end of an arm is a statement
+                    if b is not None and b[0] == "block" and b[2] is not None and b[2][0] == "mcall":
+                        return ("block", list(b[1]) + [("call", b[2])], None)
+                    return b
+                th, el = unit_tail(th), unit_tail(el)
+                s = ("expr", ("if", c, th, el))
                 d_th, d_el = self.diverges(th), (el is not None and self.diverges(el))
                 if d_th or d_el:
                     self.need(c, "bool", cx.env, "bool")
@@ -3290,6 +3398,11 @@ class FnT5(FnTranslator):
             if isinstance(n, tuple) and n[0] == "record":
                 return n
         return None
+
+    CALL_HINTS = {
+        # a call whose const generic argument rustc infers from the type of the binding it initialises: binding -> subst
+        ("src/darray/mod.rs", "new"): {"ones_inventories": {"BIT": True}, "zeroes_inventories": {"BIT": False}},
+    }
 
     HINTS = {
         # types rustc infers through code outside the subset (closures, struct literals built later): local -> type
@@ -3448,6 +3561,31 @@ class FnT5(FnTranslator):
             v = self.val(args[0], t[1][1], cx)
             cx.lines.append("let! %s := push_at %s %s %s in" % (coq, paren(coq), paren(iv), paren(v)))
             return
+        if m == "clear" and not args and recv[0] == "var" and recv[1] in cx.env and is_list(cx.env[recv[1]][1]):
+            coq, t, depth = cx.env[recv[1]]
+            if depth != cx.depth:
+                self.fail("clear of `%s` from a nested block" % recv[1])
+            cx.lines.append("let %s := [] in" % coq)
+            return
+        if m == "extend" and len(args) == 1 and recv[0] == "var" and recv[1] in cx.env and is_list(cx.env[recv[1]][1]):
+            # v.extend(src.iter()) / v.extend(std::iter::repeat(x).take(n)): the items appended in order
+            coq, t, depth = cx.env[recv[1]]
+            if depth != cx.depth:
+                self.fail("extend of `%s` from a nested block" % recv[1])
+            a = args[0]
+            if a[0] == "mcall" and a[2] in ("iter", "into_iter") and not a[3] and is_list(self.ty(a[1], None, cx.env)):
+                if self.ty(a[1], None, cx.env)[1] != t[1]:
+                    self.fail("extend of `%s` with elements of another type" % recv[1])
+                cx.lines.append("let %s := %s ++ %s in" % (coq, coq, paren(self.val(a[1], None, cx))))
+                return
+            if a[0] == "mcall" and a[2] == "take" and len(a[3]) == 1 and a[1][0] == "call" and a[1][1] == ["std", "iter", "repeat"] and len(a[1][3]) == 1:
+                self.need(a[1][3][0], t[1], cx.env, t[1])
+                xv = self.val(a[1][3][0], t[1], cx)
+                self.need(a[3][0], "usize", cx.env, "usize")
+                nv = self.val(a[3][0], "usize", cx)
+                cx.lines.append("let %s := %s ++ repeat %s (N.to_nat %s) in" % (coq, coq, paren(xv), paren(nv)))
+                return
+            self.fail("`extend` with this source")
         if m == "sort_by_key" and len(args) == 1 and args[0][0] == "closure" and recv[0] == "var" and recv[1] in cx.env and is_list(cx.env[recv[1]][1]):
             # v.sort_by_key(|x| x.k): the stable sort by the k-th component
             coq, t, depth = cx.env[recv[1]]
@@ -3586,6 +3724,17 @@ class FnT5(FnTranslator):
 
     def assign5(self, s, cx):
         _, lhs, op, rhs = s
+        if lhs[0] == "var" and rhs[0] == "range" and op is None and lhs[1] in cx.env and isinstance(cx.env[lhs[1]][1], tuple) \
+                and cx.env[lhs[1]][1][0] == "recparam" and cx.env[lhs[1]][1][1] == "Range":
+            lists = cx.env[lhs[1]][1][3]
+            t = lists["start"][1]
+            self.need(rhs[1], t, cx.env, t), self.need(rhs[2], t, cx.env, t)
+            av, bv = self.val(rhs[1], t, cx), self.val(rhs[2], t, cx)
+            for fnm, v in (("start", av), ("end", bv)):
+                if cx.env["%s.%s" % (lhs[1], fnm)][2] != cx.depth:
+                    self.fail("assignment to `%s` from a nested block" % lhs[1])
+                cx.lines.append("let %s := %s in" % (lists[fnm][0], v))
+            return
         if lhs[0] == "index" and lhs[1][0] == "var" and lhs[1][1] in cx.env and isinstance(cx.env[lhs[1][1]][1], tuple) \
                 and cx.env[lhs[1][1]][1][0] == "soalocal" and op is None:
             # v[i] = S { .. } on a vector of several-field structs: every list is updated at i (one bounds check)
@@ -3708,9 +3857,16 @@ class FnT5(FnTranslator):
         body = s[2] if s[0] == "while" else (s[4] if s[0] == "foriter" else s[5])
         step = None
         if s[0] == "forstep":
-            if s[4][0] != "lit" or s[4][1] == 0:
-                self.fail("`step_by` with a step that is not a positive literal")
-            step = s[4][1]
+            if s[4][0] == "lit":
+                step = s[4][1]
+            else:
+                try:
+                    sv = self.val(s[4], "usize", Cx(self, cx.env, cx.depth))     # a named constant
+                except Unsupported:
+                    sv = ""
+                step = int(sv) if re.fullmatch(r"[0-9]+", sv or "") else 0
+            if step == 0:
+                self.fail("`step_by` with a step that is not a positive constant")
             s = ("for", s[1], s[2], s[3], False, s[5])
         if body[2] is not None:
             self.fail("loop body with a value")
@@ -3742,6 +3898,8 @@ class FnT5(FnTranslator):
                 s2 = ("for", "i_", ("lit", 0, None, "0"), ("mcall", lexpr, "len", []), False,
                       ("block", [("let", xvar, None, ("mcall", lexpr, "get_unchecked", [("var", "i_")]))] + list(body[1]), None))
                 return self.loop(s2, rest, tail, cx, flow)
+            if isinstance(tl, tuple) and tl[0] == "record" and ivar is None:
+                return self.loop_over_iterator(s, tl, rest, tail, cx, flow)
             if not is_list(tl):
                 self.fail("`for` over a value of type %s" % (tl,))
             lv = self.val(lexpr, None, cx)
@@ -3797,6 +3955,50 @@ class FnT5(FnTranslator):
         out.append("match r with")
         out.append("| Retd v => %s" % flow.retd("v"))
         out.append("| Done %s =>" % (paren(init) if names else "_"))
+        after = Cx(self, cx.env, cx.depth)
+        after.lines = []
+        restl = self.seq(list(rest), tail, after, flow)
+        out += ["    " + l for a in restl for l in a.split("\n")]
+        out.append("end")
+        return out
+
+    def loop_over_iterator(self, s, tl, rest, tail, cx, flow):
+        """for x in it_expr { body } with it_expr of a struct type whose `Iterator::next` (&mut self) is translated:
+             let it = it_expr; loop { match it.next() { Some(x) => body, None => break } }
+        a while_loop (fuel) over the iterator's fields and the variables the body assigns"""
+        _, _, xvar, lexpr, body = s
+        L = cx.lines
+        sig = self.method_sig(tl[1], tl[2], "next")
+        if sig.selfkind != "mut" or sig.params or not (isinstance(sig.ret, tuple) and sig.ret[0] == "option"):
+            self.fail("`for` over a %s (no translated `next(&mut self) -> Option<_>`)" % tl[1])
+        leaves = self.model_leaves(("struct", tl[1]), self.world.unit(tl[2]))
+        if [tuple(p) if not isinstance(p, str) else (p,) for p in sig.fields] != [pp for pp, _ in leaves]:
+            self.fail("`for` over a %s (fields of `next`)" % tl[1])
+        v, pure = self.emit(lexpr, tl, cx)
+        itn = ["it_%s" % "_".join(pp) for pp, _ in leaves]
+        L.append(("let '(%s) := %s in" if pure else "let! (%s) := %s in") % (", ".join(itn), v))
+        state = self.assigned_outer(body, cx.env)
+        for n in state:
+            if cx.env[n][2] != cx.depth or cx.env[n][0] is None:
+                self.fail("loop assigning `%s` of an enclosing block from a nested block" % n)
+        names = [cx.env[n][0] for n in state]
+        allnames = itn + names
+        lam = self.tuple_pat(allnames, lam=True)
+        self.needs_fuel = True
+        bcx = Cx(self, cx.env, cx.depth + 1)
+        for n in state:
+            bcx.env[n] = (cx.env[n][0], cx.env[n][1], bcx.depth)
+        xc = bcx.bind(xvar, sig.ret[1])
+        lf = LoopFlow(allnames, flow)
+        blines = self.seq(body[1], None, bcx, lf)
+        call = app(sig.coq, *((["fuel"] if getattr(sig, "fuel", False) else []) + itn))
+        out = L + ["let! r := while_loop (fun %s => Val true) (fun %s =>" % (lam, lam),
+                   "    let! (%s, o_) := %s in" % (", ".join(itn), call),
+                   "    match o_ with",
+                   "    | None => Val (Brk %s)" % paren(self.tuple_pat(allnames)),
+                   "    | Some %s =>" % xc] + ["        " + l for a in blines for l in a.split("\n")] + \
+                  ["    end", "  ) fuel %s in" % self.tuple_pat(allnames), "match r with", "| Retd v => %s" % flow.retd("v"),
+                   "| Done %s =>" % paren(self.tuple_pat(allnames))]
         after = Cx(self, cx.env, cx.depth)
         after.lines = []
         restl = self.seq(list(rest), tail, after, flow)
@@ -3884,7 +4086,7 @@ class FnT5(FnTranslator):
             def rets(b):
                 if b[2] is not None and b[2][0] == "if" and b[2][3] is not None:
                     return ("block", list(b[1]) + [("expr", ("if", b[2][1], rets(b[2][2]), rets(b[2][3])))], None)
-                if b[2] is None:
+                if b[2] is None and rett != "unit":
                     self.fail("final `if` arm without a value")
                 return ("block", list(b[1]) + [("return", b[2])], None)
             t = self.body[2]
@@ -4108,18 +4310,28 @@ BV_GROUP_COQ = {"g_get_bit_slice", "g_get_bits_slice"}     # BitVectorMut::get_b
 
 
 WTNEW_COQ = ("g_wt_new", "g_wt_from_iter", "g_wt_from_vec", "g_wt_iter", "g_hwt_iter")
-QWTNEW_COQ = ("g_qwt256_new", "g_qwt512_new", "g_qwt256_from_vec", "g_qwt512_from_vec", "g_qwt256_from_iter", "g_qwt512_from_iter", "g_qwt256_iter", "g_qwt512_iter")
+QWTNEW_COQ = ("g_qwt256_new", "g_qwt512_new", "g_qwt256_from_vec", "g_qwt512_from_vec", "g_qwt256_from_iter", "g_qwt512_from_iter", "g_qwt256_iter", "g_qwt512_iter",
+              "g_qwt256_rank_prefetch_unchecked", "g_qwt256_rank_prefetch", "g_qwt512_rank_prefetch_unchecked", "g_qwt512_rank_prefetch")
 
 
 ITER_CTORS = {"g_bv_ones", "g_bv_ones_with_pos", "g_bv_zeros", "g_bv_zeros_with_pos", "g_bv_iter",
               "g_bvm_ones", "g_bvm_ones_with_pos", "g_bvm_zeros", "g_bvm_zeros_with_pos", "g_bvm_iter"}
 
 
+BVNEW_COQ = {"g_bvm_extend_bools", "g_bvm_extend_positions", "g_bvm_from_bools", "g_bvm_from_positions", "g_bv_from_bools"}
+
+
 def in_group(group, owners_g, owner, coq):
     if coq in ITER_CTORS:
         return group == "iters"
+    if coq in BVNEW_COQ:
+        return group == "bvnew"
     if coq == "g_qvit_next":
         return group == "qvb"
+    if group == "danew":
+        return coq in ("g_da_flush_block", "g_inv1_new", "g_inv0_new", "g_da1_new", "g_da0_new", "g_da1_from_bools", "g_da0_from_bools")
+    if group == "da":
+        return coq not in ("g_da_flush_block", "g_inv1_new", "g_inv0_new", "g_da1_new", "g_da0_new", "g_da1_from_bools", "g_da0_from_bools")
     if group == "craft":
         return coq == "g_craft_wm_codes4"
     if group == "craft2":
